@@ -26,7 +26,8 @@ def _call_periodic(loop: asyncio.BaseEventLoop, name, interval, callback):
 
     def run(handle, fn=callback):
         r = fn()
-        if r:
+        # the callback may have cancelled this timer (delegate is None then)
+        if r and handle.delegate is not None:
             if interval == 0:
                 handle.delegate = loop.call_soon(run, handle)
             else:
